@@ -1,5 +1,7 @@
 """Record PySpark 3.5.9's answers for C01 programs (run manually; needs a JVM):
-   PYSPARK_PYTHON=/venv/bin/python PYTHONPATH=/verif /venv/bin/python oracle/record_c01.py
+   PYSPARK_PYTHON=/venv/bin/python PYTHONPATH=/verif /venv/bin/python oracle/record_c01.py            (re-record everything)
+   PYSPARK_PYTHON=/venv/bin/python PYTHONPATH=/verif /venv/bin/python oracle/record_c01.py --corpus   (append the corpus
+       programs of checks/c01.py that are not in the file yet; the rest of the file is left as it is)
 The registered check only reads oracle/c01_pyspark.jsonl and compares the Coq spec with it."""
 import json, os, random, sys
 os.environ.setdefault("PYSPARK_PYTHON", "/venv/bin/python")
@@ -15,11 +17,22 @@ schema = StructType([StructField("a", LongType(), True), StructField("b", LongTy
 
 class Ctx: seed = 4242; tier = "quick"
 progs, _ = c01.make_programs(Ctx)
-rnd = random.Random(1)
-rnd.shuffle(progs)
-out = open("/verif/oracle/c01_pyspark.jsonl", "w")
+PATH = "/verif/oracle/c01_pyspark.jsonl"
+if "--corpus" in sys.argv:
+    have = {json.dumps(json.loads(l)["steps"]) for l in open(PATH)}
+    todo = []
+    for p in progs[:c01.N_CORPUS]:
+        (_, _), st = c01.plan_mode(p)
+        if json.dumps(json.loads(json.dumps(st))) not in have:
+            todo.append(p)
+    out = open(PATH, "a")
+else:
+    rnd = random.Random(1)
+    rnd.shuffle(progs)
+    todo = progs[:420]
+    out = open(PATH, "w")
 n = skipped = 0
-for steps in progs[:420]:
+for steps in todo:
     (mode, lim), steps = c01.plan_mode(steps)
     if not steps:
         continue
